@@ -45,9 +45,10 @@ def _readline(proc, deadline):
 
 
 class _Worker(threading.Thread):
-    def __init__(self, tasks, results, lock, op, cases, limit, env_extra, pyargs, fresh=False):
+    def __init__(self, tasks, results, lock, op, cases, limit, env_extra, pyargs, fresh=False, budget=None):
         super().__init__(daemon=True)
         self.fresh = fresh
+        self.budget = budget      # shared [hangs seen so far, limit]: past the limit no further batch is started
         self.tasks, self.results, self.lock = tasks, results, lock
         self.op, self.cases, self.limit = op, cases, limit
         self.env_extra, self.pyargs = env_extra, pyargs
@@ -61,7 +62,16 @@ class _Worker(threading.Thread):
 
     def _next(self):
         with self.lock:
+            if self.budget is not None and self.budget[0] >= self.budget[1]:
+                return None
             return self.tasks.pop() if self.tasks else None
+
+    def _count_hang(self, r):
+        if self.budget is None or not isinstance(r, dict):
+            return
+        if r.get("hang") or any(isinstance(v, dict) and v.get("hang") for v in r.values()):
+            with self.lock:
+                self.budget[0] += 1
 
     def _kill(self, proc):
         try:
@@ -103,12 +113,14 @@ class _Worker(threading.Thread):
                         r = json.loads(line)
                         assert r["i"] == i
                         self.results[i] = r["r"]
+                        self._count_hang(r["r"])
                     except Exception:  # noqa: BLE001
                         bad = {"worker_died": True, "raw": (line or "")[:200]}
                 if bad is not None:
                     self._kill(proc)
                     proc = None
                     self.results[i] = bad
+                    self._count_hang(bad)
                     rest = batch[j + 1:]
                     if rest:
                         with self.lock:
@@ -126,8 +138,10 @@ HANG_CONFIRM_CAP = 48
 
 
 def run_ops(op: str, cases: list, limit: float = 4.0, jobs: int | None = None, env_extra=None, pyargs=None,
-            batch: int = 25, confirm_hangs: bool = True, fresh: bool = False) -> list:
-    """Run impl.op_<op>(case) for every case; returns the results in order."""
+            batch: int = 25, confirm_hangs: bool = True, fresh: bool = False, hang_budget: int | None = None) -> list:
+    """Run impl.op_<op>(case) for every case; returns the results in order.  With hang_budget, the run stops handing out
+    work once that many observations timed out (an implementation that hangs on thousands of inputs would otherwise cost
+    hours); the cases not run come back as {"skipped_after_hangs": True}."""
     n = len(cases)
     if n == 0:
         return []
@@ -135,7 +149,8 @@ def run_ops(op: str, cases: list, limit: float = 4.0, jobs: int | None = None, e
     jobs = max(1, min(jobs or NCPU, (n + batch - 1) // batch))
     tasks = [list(range(s, min(n, s + batch))) for s in range(0, n, batch)][::-1]
     lock = threading.Lock()
-    ws = [_Worker(tasks, results, lock, op, cases, limit, env_extra, pyargs, fresh) for _ in range(jobs)]
+    budget = [0, hang_budget] if hang_budget else None
+    ws = [_Worker(tasks, results, lock, op, cases, limit, env_extra, pyargs, fresh, budget) for _ in range(jobs)]
     for w in ws:
         w.start()
     for w in ws:
@@ -143,6 +158,10 @@ def run_ops(op: str, cases: list, limit: float = 4.0, jobs: int | None = None, e
     for w in ws:
         if w.error:
             raise MachineryError(f"worker thread failed: {w.error!r}")
+    if budget is not None and budget[0] >= budget[1]:
+        for i, r in enumerate(results):
+            if r is None:
+                results[i] = {"skipped_after_hangs": True}
     redo = [i for i, r in enumerate(results) if isinstance(r, dict) and (r.get("hang") or r.get("worker_died"))]
     if redo and confirm_hangs:
         # re-run hang candidates alone-ish (few jobs, doubled limit): load must not become a verdict
